@@ -40,6 +40,15 @@ class YieldedError(Exception):
     pass
 
 
+RAISE_TYPES = {'BatchBoom': BatchBoom, 'KeyError': KeyError, 'ValueError': ValueError, 'RuntimeError': RuntimeError,
+               'LookupError': LookupError, 'TimeoutError': TimeoutError, 'OSError': OSError}
+
+
+def _boom(case, b, key):
+    """The exception the batch function raises: any Exception type, the same object must reach the callers."""
+    return RAISE_TYPES[case.get('raise_type', 'BatchBoom')]('batch %d failed at %s' % (b, key))
+
+
 class Val:
     """A unique value object tagged with where it came from."""
     __slots__ = ('batch', 'key', 'n')
@@ -96,7 +105,7 @@ def run(case, max_steps=30000):
                     if kind == 'omit':
                         continue
                     if kind == 'raise_before':
-                        rec['raised'] = BatchBoom(b, key)
+                        rec['raised'] = _boom(case, b, key)
                         raise rec['raised']
                     n += 1
                     if kind == 'exc':
@@ -116,7 +125,7 @@ def run(case, max_steps=30000):
                         rec['yields'].append(('?unknown', obj3, sim.now))
                         yield '?unknown', obj3
                     elif kind == 'raise_after':
-                        rec['raised'] = BatchBoom(b, key)
+                        rec['raised'] = _boom(case, b, key)
                         raise rec['raised']
                 rec['exhausted'] = True
             finally:
@@ -154,12 +163,14 @@ def run(case, max_steps=30000):
                         rec['done'] = sim.now
                 # chained calls: the same task asks again for the same key the moment it has been answered
                 # (no suspension in between), so the follow-up is causally *after* the answer
+                prev = i
                 for n in range(c.get('chain', 0)):
                     j = len(callers)
                     callers.append({'i': j, 'name': c['name'], 'key': rec['key'], 'arrived': None, 'seq': None, 'done': None,
                                     'outcome': None, 'cancel_req': None, 'spec': dict(c, chain=0), 'fresh': False,
-                                    'after': callers[j - 1]['i'] if n else i})
+                                    'after': prev})
                     await call(j, dict(c, chain=0, timeout=None, cancel=None))
+                    prev = j
 
             def start(i, c):
                 t = loop.create_task(call(i, c))
@@ -182,6 +193,11 @@ def run(case, max_steps=30000):
                     state['mbs_log'].append((sim.now, case['mutate']['mbs']))
                 if hasattr(batcher, 'max_batch_size'):
                     loop.call_at(t0 + case['mutate']['at'], mutate)
+            for t_gc in case.get('gc_at') or ():
+                # an explicit garbage collection in the middle of the program (the world keeps automatic
+                # collection off): nothing the batcher still needs may be reachable only weakly
+                import gc
+                loop.call_at(t0 + t_gc, gc.collect)
             order = sorted(range(len(case['calls'])), key=lambda i: (case['calls'][i]['at'], i))
             for i in order:
                 c = case['calls'][i]
